@@ -26,7 +26,7 @@ func (e *Engine) ghostArr(st *State, name string, s Sort) *Term {
 	return e.tb.Const("G0!"+name, s)
 }
 
-var ghostSorts = map[string]Sort{"setbyteslen": SInt, "closed": SArrB, "sends": SArrI, "held": SArrB, "kvput": SArrB, "kvdel": SArrB, "kvapplied": SArrI, "kvbatch": SArrB, "marks": SArrB, "ctxdone": SArrB, "ctxbounded": SArrB}
+var ghostSorts = map[string]Sort{"setbyteslen": SInt, "closed": SArrB, "sends": SArrI, "held": SArrB, "kvput": SArrB, "kvdel": SArrB, "kvapplied": SArrI, "kvbatch": SArrB, "marks": SArrB, "ctxdone": SArrB, "ctxbounded": SArrB, "wpos": SArrI, "wbytes": SArr2I, "rfail": SArrB, "unmarshalled": SArrB}
 
 func (e *Engine) setGhost(st *State, name string, t *Term) {
 	st.Ghost[name] = t
@@ -48,6 +48,65 @@ func (e *Engine) advance(st *State, r Val, n *Term) {
 	k := readerKey(e.tb, r)
 	cur := e.ghostArr(st, "rpos", SArrI)
 	e.setGhost(st, "rpos", e.tb.Store(cur, k, e.tb.Add(e.tb.Select(cur, k), n)))
+}
+
+// unixNano: the uninterpreted nanosecond count of a time value (an int64).
+func (e *Engine) unixNano(st *State, t Val, T types.Type) *Term {
+	tb := e.tb
+	t = e.flatten(st, T, t)
+	r := tb.App("time_unixnano", SInt, intTerms(tb, t.T)...)
+	e.assume(st, tb.And(tb.Le(tb.BigInt(new(big.Int).Neg(pow2big(63))), r), tb.Lt(r, tb.BigInt(pow2big(63)))))
+	return r
+}
+
+// writerKey identifies a writer by its interface value.
+func writerKey(tb *TB, w Val) *Term {
+	return tb.App("wrkey", SInt, w.ifTag(), w.ifVal())
+}
+
+// Byte model of writers (stream model only): ghost "wpos" (writer -> number of bytes written so far) and "wbytes"
+// (writer -> position -> byte). A successful write of n bytes stores them at wpos..wpos+n-1 and advances wpos by n; a failed
+// write leaves an arbitrary output behind (nothing is known about the writer afterwards except that wpos did not decrease).
+func (e *Engine) writeBytes(st *State, w Val, n *Term, ok *Term, byteAt func(i *Term) *Term, consts []*Term) {
+	if !e.Opts.StreamModel {
+		return
+	}
+	tb := e.tb
+	e.Assumed["writer model: a successful Write appends exactly the given bytes to the writer's output (ghost wpos/wbytes); a failed write leaves an arbitrary output"] = true
+	k := writerKey(tb, w)
+	posA := e.ghostArr(st, "wpos", SArrI)
+	byA := e.ghostArr(st, "wbytes", SArr2I)
+	pos := tb.Select(posA, k)
+	oldRow := tb.Select(byA, k)
+	var okRow *Term
+	if consts != nil {
+		okRow = oldRow
+		for i, c := range consts {
+			okRow = tb.Store(okRow, tb.Add(pos, tb.Int(int64(i))), c)
+		}
+	} else {
+		nr := tb.Fresh("wr_row", SArrI)
+		i := tb.BoundVar("i", SInt)
+		in := tb.And(tb.Le(pos, i), tb.Lt(i, tb.Add(pos, n)))
+		e.assume(st, tb.Forall([]*Term{i}, tb.Eq(tb.Select(nr, i), tb.Ite(in, byteAt(tb.Sub(i, pos)), tb.Select(oldRow, i))), []*Term{tb.Select(nr, i)}))
+		okRow = nr
+	}
+	badRow := tb.Fresh("wr_failed_row", SArrI)
+	badAdv := tb.Fresh("wr_failed_n", SInt)
+	e.assume(st, tb.Le(tb.Int(0), badAdv))
+	e.setGhost(st, "wbytes", tb.Store(byA, k, tb.Ite(ok, okRow, badRow)))
+	e.setGhost(st, "wpos", tb.Store(posA, k, tb.Add(pos, tb.Ite(ok, n, badAdv))))
+}
+
+// readerFailed records that a read on r returned an error (ghost "rfail": reader -> some read failed so far).
+func (e *Engine) readerFailed(st *State, r Val, failed *Term) {
+	if !e.Opts.StreamModel {
+		return
+	}
+	tb := e.tb
+	k := readerKey(tb, r)
+	cur := e.ghostArr(st, "rfail", SArrB)
+	e.setGhost(st, "rfail", tb.Store(cur, k, tb.Or(tb.Select(cur, k), failed)))
 }
 
 // streamByte(reader, i): the i-th byte of the reader's stream.
@@ -92,6 +151,7 @@ func init() {
 		e.fillFromStream(st, recv, buf, n, true)
 		st.Trace = append(st.Trace, TraceEv{Kind: "read", Len: n, Note: "Read", Val: e.rowSample(st, buf)})
 		e.advance(st, recv, n)
+		e.readerFailed(st, recv, tb.Neq(errv.ifTag(), tb.Int(0)))
 		k(st, Val{Elems: []Val{scalar(n), errv}})
 	}
 	libSpecs["io.ReadFull"] = func(e *Engine, st *State, fn *ssa.Function, args []Val, pos token.Pos, k Kont) {
@@ -105,6 +165,7 @@ func init() {
 		e.fillFromStream(st, args[0], buf, n, false)
 		st.Trace = append(st.Trace, TraceEv{Kind: "readfull", Len: buf.slLen(), Note: "ReadFull", Val: e.rowSample(st, buf)})
 		e.advance(st, args[0], n)
+		e.readerFailed(st, args[0], tb.Not(ok))
 		k(st, Val{Elems: []Val{scalar(n), Val{T: []*Term{tb.Ite(ok, tb.Int(0), errv.ifTag()), tb.Ite(ok, tb.Int(0), errv.ifVal())}}}})
 	}
 	libSpecs["encoding/binary.Read"] = func(e *Engine, st *State, fn *ssa.Function, args []Val, pos token.Pos, k Kont) {
@@ -137,6 +198,16 @@ func init() {
 		max := tb.BigInt(maxLenBits(bits))
 		e.assume(st, tb.And(tb.Le(tb.Int(0), raw), tb.Lt(raw, max)))
 		e.assume(st, tb.Eq(raw, tb.App(fmt.Sprintf("le%d", bits), SInt, readerKey(tb, args[0]), e.rpos(st, args[0]))))
+		if e.Opts.StreamModel {
+			// little-endian value of the next size stream bytes
+			var sum *Term = tb.Int(0)
+			for bi := int64(0); bi < size; bi++ {
+				sb := tb.App("stream", SInt, readerKey(tb, args[0]), tb.Add(e.rpos(st, args[0]), tb.Int(bi)))
+				e.assume(st, tb.And(tb.Le(tb.Int(0), sb), tb.Le(sb, tb.Int(255))))
+				sum = tb.Add(sum, tb.Mul(tb.BigInt(pow2big(int(8*bi))), sb))
+			}
+			e.assume(st, tb.Eq(raw, sum))
+		}
 		if b.Info()&types.IsBoolean != 0 {
 			nvb := tb.Neq(raw, tb.Int(0))
 			st.Trace = append(st.Trace, TraceEv{Kind: "prim", Bits: bits, Val: raw, Note: T.String()})
@@ -149,6 +220,7 @@ func init() {
 		n := tb.Fresh("br_n", SInt)
 		e.assume(st, tb.And(tb.Le(tb.Int(0), n), tb.Le(n, tb.Int(size)), tb.Implies(ok, tb.Eq(n, tb.Int(size)))))
 		e.advance(st, args[0], n)
+		e.readerFailed(st, args[0], tb.Not(ok))
 		k(st, Val{T: []*Term{tb.Ite(ok, tb.Int(0), errv.ifTag()), tb.Ite(ok, tb.Int(0), errv.ifVal())}})
 	}
 	libIface["io.Writer.Write"] = func(e *Engine, st *State, c *ssa.CallCommon, recv Val, args []Val, pos token.Pos, k Kont) {
@@ -159,6 +231,8 @@ func init() {
 		e.assume(st, tb.And(tb.Le(tb.Int(0), n), tb.Le(n, buf.slLen()), tb.Implies(tb.Eq(errv.ifTag(), tb.Int(0)), tb.Eq(n, buf.slLen()))))
 		e.Assumed["io.Writer contract: Write returns n == len(p) when err == nil"] = true
 		e.writeEvent(st, recv, "bytes", buf.slLen(), e.rowToken(st, buf), tb.Eq(errv.ifTag(), tb.Int(0)))
+		srcRow := tb.Select(e.H(st, "E:uint8", SArr2I), buf.slArr())
+		e.writeBytes(st, recv, buf.slLen(), tb.Eq(errv.ifTag(), tb.Int(0)), func(i *Term) *Term { return tb.Select(srcRow, tb.Add(buf.slOff(), i)) }, nil)
 		k(st, Val{Elems: []Val{scalar(n), errv}})
 	}
 	libSpecs["encoding/binary.Write"] = func(e *Engine, st *State, fn *ssa.Function, args []Val, pos token.Pos, k Kont) {
@@ -181,6 +255,21 @@ func init() {
 		}
 		errv := e.freshVal(st, fn.Signature.Results().At(0).Type(), "bw_err")
 		e.writeEvent(st, args[0], fmt.Sprintf("u%d", e.Sizes.Sizeof(T)*8), tb.Int(e.Sizes.Sizeof(T)), vt, tb.Eq(errv.ifTag(), tb.Int(0)))
+		if e.Opts.StreamModel {
+			// the little-endian bytes of the value's two's complement representation
+			size := e.Sizes.Sizeof(T)
+			u := tb.Ite(tb.Lt(vt, tb.Int(0)), tb.Add(vt, tb.BigInt(pow2big(int(8*size)))), vt)
+			var bs []*Term
+			var sum *Term = tb.Int(0)
+			for bi := int64(0); bi < size; bi++ {
+				b := tb.Fresh("wr_byte", SInt)
+				e.assume(st, tb.And(tb.Le(tb.Int(0), b), tb.Le(b, tb.Int(255))))
+				sum = tb.Add(sum, tb.Mul(tb.BigInt(pow2big(int(8*bi))), b))
+				bs = append(bs, b)
+			}
+			e.assume(st, tb.Eq(u, sum))
+			e.writeBytes(st, args[0], tb.Int(size), tb.Eq(errv.ifTag(), tb.Int(0)), nil, bs)
+		}
 		k(st, errv)
 	}
 	libSpecs["io.WriteString"] = func(e *Engine, st *State, fn *ssa.Function, args []Val, pos token.Pos, k Kont) {
@@ -189,18 +278,27 @@ func init() {
 		errv := e.freshVal(st, fn.Signature.Results().At(1).Type(), "ws_err")
 		e.assume(st, tb.Le(tb.Int(0), n))
 		e.writeEvent(st, args[0], "string", e.strLen(st, args[1].T[0]), args[1].T[0], tb.Eq(errv.ifTag(), tb.Int(0)))
+		sbRow := tb.App("strbytes", SArrI, args[1].T[0])
+		if e.Opts.StreamModel {
+			e.Assumed["strings: string([]byte(s)) == s (bytes2str is the inverse of strbytes)"] = true
+			e.assume(st, tb.Eq(tb.App("bytes2str", SInt, sbRow, tb.Int(0), e.strLen(st, args[1].T[0])), args[1].T[0]))
+		}
+		e.writeBytes(st, args[0], e.strLen(st, args[1].T[0]), tb.Eq(errv.ifTag(), tb.Int(0)), func(i *Term) *Term { return tb.Select(sbRow, i) }, nil)
 		k(st, Val{Elems: []Val{scalar(n), errv}})
 	}
 	// Unmarshalling into / decoding a value of a type outside the repository's knowledge (unknown dynamic type):
 	// interface contract - returns an error or nil, does not panic, writes only its own receiver.
 	libIface["encoding.BinaryUnmarshaler.UnmarshalBinary"] = func(e *Engine, st *State, c *ssa.CallCommon, recv Val, args []Val, pos token.Pos, k Kont) {
 		e.Assumed["UnmarshalBinary of types with unknown dynamic type (third-party assets, addresses, app ids, data): does not panic, touches only its receiver"] = true
+		// ghost: the value has been handed to its unmarshaler
+		um := e.ghostArr(st, "unmarshalled", SArrB)
+		e.setGhost(st, "unmarshalled", e.tb.Store(um, e.tb.App("umkey", SInt, recv.ifTag(), recv.ifVal()), e.tb.True()))
 		k(st, e.freshVal(st, c.Signature().Results().At(0).Type(), "unm_err"))
 	}
 	libIface["encoding.BinaryMarshaler.MarshalBinary"] = func(e *Engine, st *State, c *ssa.CallCommon, recv Val, args []Val, pos token.Pos, k Kont) {
 		e.Assumed["MarshalBinary of types with unknown dynamic type: does not panic, returns a byte slice or an error"] = true
 		tb := e.tb
-		ln := tb.Fresh("mb_len", SInt)
+		ln := tb.App("marshallen", SInt, recv.ifTag(), recv.ifVal())
 		e.assume(st, tb.And(tb.Le(tb.Int(0), ln), tb.Le(ln, tb.BigInt(maxLen))))
 		sl := e.allocSlice(st, types.Typ[types.Uint8], ln, ln)
 		cl := "E:uint8"
@@ -411,8 +509,20 @@ func init() {
 		ln := tb.Add(in.slLen(), tb.Int(32))
 		k(st, e.allocSlice(st, types.Typ[types.Uint8], ln, ln))
 	}
-	libSpecs["time.Unix"] = pureUF("time_Unix")
-	libSpecs["(time.Time).UnixNano"] = pureUF("time_UnixNano")
+	// time: values are opaque; UnixNano is an uninterpreted function of the value with time.Unix(0, n).UnixNano() == n
+	libSpecs["(time.Time).UnixNano"] = func(e *Engine, st *State, fn *ssa.Function, args []Val, pos token.Pos, k Kont) {
+		r := e.unixNano(st, args[0], fn.Signature.Recv().Type())
+		k(st, scalar(r))
+	}
+	libSpecs["time.Unix"] = func(e *Engine, st *State, fn *ssa.Function, args []Val, pos token.Pos, k Kont) {
+		pureUF("time_Unix")(e, st, fn, args, pos, func(st *State, res Val) {
+			if c, ok := args[0].T[0].ConstInt(); ok && c == 0 {
+				e.Assumed["time: time.Unix(0, n).UnixNano() == n"] = true
+				e.assume(st, e.tb.Eq(e.unixNano(st, res, fn.Signature.Results().At(0).Type()), args[1].T[0]))
+			}
+			k(st, res)
+		})
+	}
 	libSpecs["(time.Time).Unix"] = pureUF("time_UnixS")
 	libSpecs["time.Now"] = func(e *Engine, st *State, fn *ssa.Function, args []Val, pos token.Pos, k Kont) {
 		k(st, e.havocResults(st, fn.Signature, "now"))
@@ -436,7 +546,7 @@ func (e *Engine) rowToken(st *State, buf Val) *Term {
 // writeEvent appends a token (kind, length, value) to the ghost output of a writer.
 func (e *Engine) writeEvent(st *State, w Val, kind string, ln, val *Term, ok *Term) {
 	tb := e.tb
-	key := tb.App("wrkey", SInt, w.ifTag(), w.ifVal())
+	key := writerKey(tb, w)
 	cnt := e.ghostArr(st, "wcount", SArrI)
 	n := tb.Select(cnt, key)
 	// token arrays: wkind/wlen/wval : writer -> index -> value, flattened through an uninterpreted pairing
